@@ -51,6 +51,7 @@ type ReqLog struct {
 	Hits  []Hit
 	MW    []int
 	Inner func(c fox.Context, h *Hit) // optional extra behaviour of the handler (yield, write, panic, ...)
+	OnMW  func(c fox.Context, id int) // optional: called by every tracing middleware on entry
 }
 
 type reqLogKey struct{}
@@ -191,6 +192,9 @@ func RouteMW(id int) fox.MiddlewareFunc {
 		return func(c fox.Context) {
 			if l := LogOf(c); l != nil {
 				l.MW = append(l.MW, id)
+				if l.OnMW != nil {
+					l.OnMW(c, id)
+				}
 			}
 			next(c)
 		}
@@ -275,6 +279,12 @@ func NewRequest(method, host, path, rawPath, rawQuery string, log *ReqLog) *http
 		ProtoMinor: 1,
 		RemoteAddr: "192.0.2.1:1234",
 		RequestURI: path,
+	}
+	if rawPath != "" {
+		r.RequestURI = rawPath
+	}
+	if rawQuery != "" {
+		r.RequestURI += "?" + rawQuery
 	}
 	if log != nil {
 		r = r.WithContext(context.WithValue(context.Background(), reqLogKey{}, log))
